@@ -31,7 +31,15 @@ JudgeVar(e) ==
     ELSE IF ~IsRCOf(e.rc, e.s) THEN "ReverseComplement differs from the definition"
     ELSE IF Range(e.varsrc) # {RC(v) : v \in Range(e.vars)} THEN "expansion does not commute with reverse complement"
     ELSE "ok"
-Judge(e) == CASE e.k = "rc" -> JudgeRc(e) [] e.k = "cat" -> JudgeCat(e) [] e.k = "var" -> JudgeVar(e)
+(* [k|->"varbig", s, n, distinct, sample, err]: an expansion too large to hold here; n and distinct are counted by the *)
+(* harness, the sampled variants are judged like any other                                                        *)
+JudgeVarBig(e) ==
+    IF e.err THEN "AllVariantsIUPAC rejects a string of IUPAC codes"
+    ELSE IF e.n # NumVariants(Chars(e.s)) THEN "wrong number of variants"
+    ELSE IF e.distinct # e.n THEN "a variant is returned more than once (harness-side count of distinct variants)"
+    ELSE IF \E i \in 1..Len(e.sample) : ~IsVariantOf(e.sample[i], e.s) THEN "a returned variant is not denoted by the input"
+    ELSE "ok"
+Judge(e) == CASE e.k = "rc" -> JudgeRc(e) [] e.k = "cat" -> JudgeCat(e) [] e.k = "var" -> JudgeVar(e) [] e.k = "varbig" -> JudgeVarBig(e)
 
 Init == l = 1
 Next == /\ l <= Len(Trace)
